@@ -101,6 +101,17 @@ pub mod rustix {
             #[verifier::external_body]
             fn bitand(self, rhs: OFlags) -> (r: OFlags) { unimplemented!() }
         }
+        // (not used by the unchanged tree; an edit may start to use it)
+        impl vstd::std_specs::ops::BitXorSpecImpl for OFlags {
+            open spec fn obeys_bitxor_spec() -> bool { true }
+            open spec fn bitxor_req(self, rhs: OFlags) -> bool { true }
+            open spec fn bitxor_spec(self, rhs: OFlags) -> OFlags { OFlags { bits: self.bits ^ rhs.bits } }
+        }
+        impl std::ops::BitXor for OFlags {
+            type Output = OFlags;
+            #[verifier::external_body]
+            fn bitxor(self, rhs: OFlags) -> (r: OFlags) { unimplemented!() }
+        }
         impl vstd::std_specs::ops::NotSpecImpl for OFlags {
             open spec fn obeys_not_spec() -> bool { true }
             open spec fn not_req(self) -> bool { true }
